@@ -237,6 +237,13 @@ func runC11(p *Prog, r *Result) {
 					}
 					if tv.Value == nil {
 						if fo != checkLang {
+							// a set that comes in as a parameter is judged where it is written: at every call
+							if vals, poss, ok := paramSetsAtCalls(info, fg, fo, x.Args[0]); ok {
+								for i, v := range vals {
+									checkSet(fmt.Sprintf("%s#in(%s) called with %#b", fkey, shortExpr(x.Args[0]), v), poss[i], v, "lang.in, through a parameter,")
+								}
+								return true
+							}
 							r.Undecided("R11b", fkey+"#in("+shortExpr(x.Args[0])+")", x.Pos(), "variant set is not a constant")
 						}
 						return true
@@ -382,4 +389,65 @@ var c11Controls = []Control{
 		Mutate: ctlReplaceAnywhere("\t\t\tif !p.lang.in(langBashLike | LangMirBSDKorn | LangZsh) {\n\t\t\t\tbreak\n\t\t\t}\n\t\t\tp.rune()\n\t\t\treturn dollSglQuote", "\t\t\tp.rune()\n\t\t\treturn dollSglQuote")},
 	{Name: "unsigned-before-checklang-removed", Rule: "R11c", WantKey: "ArithmExp.Unsigned", File: "syntax/parser.go",
 		Mutate: ctlReplace("Parser.wordPart", "p.checkLang(ar.Pos(), LangMirBSDKorn, \"unsigned expressions\")", "_ = ar", 0)},
+}
+
+// paramSetsAtCalls: e is a parameter of fo; the constant passed for it at each call of fo in the package (deduplicated).
+func paramSetsAtCalls(info *types.Info, fg *funcGraphs, fo *types.Func, e ast.Expr) ([]uint64, []token.Pos, bool) {
+	id, ok := ast.Unparen(e).(*ast.Ident)
+	if !ok {
+		return nil, nil, false
+	}
+	obj := info.ObjectOf(id)
+	fd := fg.decls[fo]
+	idx, k := -1, 0
+	if fd.Type.Params != nil {
+		for _, f := range fd.Type.Params.List {
+			for _, nm := range f.Names {
+				if info.ObjectOf(nm) == obj {
+					idx = k
+				}
+				k++
+			}
+		}
+	}
+	if idx < 0 {
+		return nil, nil, false
+	}
+	var vals []uint64
+	var poss []token.Pos
+	seen := map[uint64]bool{}
+	all := true
+	for _, cfd := range fg.decls {
+		ast.Inspect(cfd.Body, func(n ast.Node) bool {
+			c, ok := n.(*ast.CallExpr)
+			if !ok || calleeOf(info, c) != fo || idx >= len(c.Args) {
+				return true
+			}
+			tv := info.Types[c.Args[idx]]
+			if tv.Value == nil {
+				all = false
+				return true
+			}
+			v, _ := constant.Uint64Val(tv.Value)
+			if !seen[v] {
+				seen[v] = true
+				vals = append(vals, v)
+				poss = append(poss, c.Pos())
+			}
+			return true
+		})
+	}
+	if !all || len(vals) == 0 {
+		return nil, nil, false
+	}
+	// stable order
+	for i := 0; i < len(vals); i++ {
+		for j := i + 1; j < len(vals); j++ {
+			if vals[j] < vals[i] {
+				vals[i], vals[j] = vals[j], vals[i]
+				poss[i], poss[j] = poss[j], poss[i]
+			}
+		}
+	}
+	return vals, poss, true
 }
